@@ -26,6 +26,7 @@ META = {
     "is recorded under [asset][holder][exchange], keys taken from the same balance; the report loop visits every asset with unrealized cost, computes per-unit = "
     "asset cost / sum of the asset's holder balances, and writes one row per holder and one per (holder, exchange) with balance, per-unit cost, balance * per-unit and "
     "that value / grand total under the header labels that name them, each row on its own line; hence the weights add up to 1 as formulas.",
+    "restated": 'the lots counted are those up to the to-date on their own calendar date (C10.a); the balances read are the replayed flows (C07.a-d)',
     "not_decided": "the conservation law as run-time numbers (31-digit quotients do not add back exactly; RP2Decimal comparisons quantise to 13 decimals); "
     "that an asset with unsold cost always has a positive balance (rests on C07's reconciliation, known finding F2); spreadsheet formulas of the Input-price columns.",
     "assumptions": ["dict semantics (unique keys, insertion order)", "BalanceSet yields one Balance per (exchange, holder) of the asset (C07.c)"],
